@@ -27,6 +27,7 @@ func init() {
 			{ID: "C11.5", Desc: "legacy marker written or cleared on every path", Run: ruleC11_5, MinSites: 1},
 			{ID: "C11.6", Desc: "synthesised 504 carries BYPASS, no legacy marker", Run: ruleC11_6, MinSites: 1},
 			{ID: "C11.7", Desc: "single-valued: Set, not Add", Run: ruleC11_7, MinSites: 2},
+			{ID: "C11.8", Desc: "the status is applied after every other header write of the exchange", Run: ruleC11_8, MinSites: 3},
 		},
 	})
 }
@@ -579,5 +580,58 @@ func ruleC11_7(c *Ctx) {
 	}
 	if bad == 0 {
 		c.Pass("C11.7", "set-not-add", "the cache writes response fields with Set, never Add", fmt.Sprintf("%d Header.Set sites on response headers", n), "no Header.Add on a response header")
+	}
+}
+
+// ruleC11_8: once the cache status was applied to a header, nothing else writes that header before the return
+// (a later merge of origin fields could overwrite the status; a later store would persist it).
+func ruleC11_8(c *Ctx) {
+	n := 0
+	for fn := range c.A.Reach {
+		instrsOf(fn, func(in ssa.Instruction) {
+			if !c.An.CallsRole(in, "statusApply") || fn == c.A.F("statusApply") {
+				return
+			}
+			n++
+			call := callOf(in)
+			cls := c.An.HeaderClass(call.Args[1])
+			where := c.P.ShortName(fn) + "@" + c.P.InstrPos(in)
+			bad := ""
+			instrsOf(fn, func(i2 ssa.Instruction) {
+				if i2 == in || !instrReaches(in, i2) || instrReaches(i2, in) && i2.Block() != in.Block() {
+					return
+				}
+				c2 := callOf(i2)
+				if c2 == nil {
+					return
+				}
+				mut := ""
+				switch {
+				case c2.StaticCallee() == c.A.F("merge304"):
+					mut = "304 merge"
+				case c.An.CallsRole(i2, "storeResp"):
+					mut = "store"
+				case c2.StaticCallee() == c.A.F("stripHop"):
+					mut = "hop-by-hop strip"
+				case callIsMethod(c2, "net/http", "Header", "Set") || callIsMethod(c2, "net/http", "Header", "Add") || callIsMethod(c2, "net/http", "Header", "Del"):
+					r, _ := recvAndArgs(c2)
+					if c.An.HeaderClass(r) == cls {
+						mut = "header write"
+					}
+				}
+				if mut != "" {
+					bad = fmt.Sprintf("%s: %s at %s follows the status application", where, mut, c.P.InstrPos(i2))
+				}
+			})
+			desc := "nothing writes the response header (or stores the response) after the cache status was applied"
+			if bad != "" {
+				c.Fail("C11.8", "status-last fn="+c.P.ShortName(fn), desc, bad+"; a 304 that itself carries X-Httpcache-Status overwrites REVALIDATED, or the stored copy carries the cache's status")
+			} else {
+				c.Pass("C11.8", "status-last fn="+c.P.ShortName(fn), desc, where)
+			}
+		})
+	}
+	if n == 0 {
+		c.Undecided("C11.8", "vacuity", "status application sites exist", "none")
 	}
 }
